@@ -126,9 +126,9 @@ theorem lstrip_natStr_append (n : Nat) (rest : Str) : lstrip (natStr n ++ rest) 
 
 /-- The tail of `_parse`, after origin and index have been read. -/
 def parseTail (dec : EscDec) (ue : Bool) (origin : Nat) (index : Int) (ptrS : Str) : Res Rel :=
-  if strip ptrS = ['#'] then pure ⟨origin, index, .hash⟩
+  if ptrChoice ptrS = ['#'] then pure ⟨origin, index, .hash⟩
   else do
-    let ps ← Pointer.parse dec ue (strip ptrS)
+    let ps ← Pointer.parse dec ue (ptrChoice ptrS)
     pure ⟨origin, index, .ptr ps⟩
 
 theorem parse_of_no_offset {dec : EscDec} {ue : Bool} {s oS pS : Str} {o : Nat}
@@ -220,24 +220,55 @@ theorem spellTokens_ne_hash (ts : List Str) : spellTokens ts ≠ ['#'] := by
   | nil => simp [spellTokens]
   | cons t ts => simp [spellTokens]
 
+/-- `lstrip` of a text that ends in a non-blank character still ends in it -/
+theorem lstrip_snoc_nonblank (xs : Str) (c : Char) (h : isPyBlank c = false) :
+    ∃ ys, lstrip (xs ++ [c]) = ys ++ [c] := by
+  induction xs with
+  | nil => exact ⟨[], by simp [lstrip, h]⟩
+  | cons x xs ih =>
+    simp only [List.cons_append, lstrip]
+    by_cases hx : isPyBlank x = true
+    · simp only [hx, if_true]; exact ih
+    · simp only [hx]; exact ⟨x :: xs, rfl⟩
+
+/-- stripping a text that begins with `/` leaves a text that begins with `/` -/
+theorem strip_slash (cs : Str) : ∃ t, strip ('/' :: cs) = '/' :: t := by
+  unfold strip
+  rw [lstrip_slash, List.reverse_cons]
+  obtain ⟨ys, hy⟩ := lstrip_snoc_nonblank cs.reverse '/' (by decide)
+  rw [hy]
+  exact ⟨ys.reverse, by simp⟩
+
+/-- the choice `_parse` makes between the stripped and the unstripped pointer text keeps a pointer text
+    (empty, or beginning with `/`) as it is, blank space at its end included -/
+theorem stripChoice_spellTokens (ts : List Str) : ptrChoice (spellTokens ts) = spellTokens ts := by
+  unfold ptrChoice
+  cases ts with
+  | nil => simp [spellTokens, strip]
+  | cons t ts =>
+    have : spellTokens (t :: ts) = '/' :: (escapeTok t ++ spellTokens ts) := by
+      simp only [spellTokens, List.flatMap_cons, List.cons_append]
+    rw [this]
+    obtain ⟨u, hu⟩ := strip_slash (escapeTok t ++ spellTokens ts)
+    rw [hu]
+    simp
+
 theorem parseTail_sufText (dec : EscDec) (ue : Bool) (o : Nat) (i : Int) (r : RelSpec)
-    (hr : ∀ t ∈ r.suffix, TokInRange t) (hb : ∀ t ∈ r.suffix, t.contains '\\' = false)
-    (hs : strip (spellTokens r.suffix) = spellTokens r.suffix) :
+    (hr : ∀ t ∈ r.suffix, TokInRange t) (hb : ∀ t ∈ r.suffix, t.contains '\\' = false) :
     parseTail dec ue o i (sufText r) = .ok ⟨o, i, sufOf r⟩ := by
   unfold parseTail sufText sufOf
   cases hh : r.hash with
   | true =>
-    have : strip ['#'] = ['#'] := by decide
+    have : ptrChoice ['#'] = ['#'] := by decide
     simp only [if_true, this]
     rfl
   | false =>
-    simp only [Bool.false_eq_true, if_false, hs, spellTokens_ne_hash]
+    simp only [Bool.false_eq_true, if_false, stripChoice_spellTokens, spellTokens_ne_hash]
     rw [parse_spellTokens dec ue _ hr (fun _ => spellTokens_no_backslash hb)]
     rfl
 
 theorem parse_specText (dec : EscDec) (ue : Bool) (r : RelSpec)
     (hr : ∀ t ∈ r.suffix, TokInRange t) (hb : ∀ t ∈ r.suffix, t.contains '\\' = false)
-    (hs : strip (spellTokens r.suffix) = spellTokens r.suffix)
     (ho : (natStr r.origin).length ≤ maxStrDigits)
     (hf : (natStr r.offset.natAbs).length ≤ maxStrDigits) :
     RelPointer.parse dec ue (specText r) = .ok ⟨r.origin, r.offset, sufOf r⟩ := by
@@ -248,14 +279,14 @@ theorem parse_specText (dec : EscDec) (ue : Bool) (r : RelSpec)
   · have hoff : offText r = [] := by simp [offText, h0]
     rw [hoff, List.nil_append] at h1 ⊢
     rw [parse_of_no_offset h1 (reMatch_no_offset _ _ (noDigitHead_sufText r) (sufText_head r)) h3,
-      parseTail_sufText dec ue _ _ r hr hb hs, h0]
+      parseTail_sufText dec ue _ _ r hr hb, h0]
   · by_cases hpos : r.offset > 0
     · have hoff : offText r = '+' :: natStr r.offset.toNat := by simp [offText, h0, hpos]
       rw [hoff, List.cons_append] at h1 ⊢
       have hnat : r.offset.natAbs = r.offset.toNat := by omega
       rw [hnat] at hf
       rw [parse_of_offset h1 (reMatch_offset _ _ '+' (.inl rfl) _ (noDigitHead_sufText r)) h3
-        (zeroOrPositive_natStr _ hf) (by omega), parseTail_sufText dec ue _ _ r hr hb hs]
+        (zeroOrPositive_natStr _ hf) (by omega), parseTail_sufText dec ue _ _ r hr hb]
       have : (if '+' = '-' then -((r.offset.toNat : Nat) : Int) else ((r.offset.toNat : Nat) : Int)) = r.offset := by
         rw [if_neg (by decide)]; omega
       rw [this]
@@ -264,7 +295,7 @@ theorem parse_specText (dec : EscDec) (ue : Bool) (r : RelSpec)
       have hnat : r.offset.natAbs = (-r.offset).toNat := by omega
       rw [hnat] at hf
       rw [parse_of_offset h1 (reMatch_offset _ _ '-' (.inr rfl) _ (noDigitHead_sufText r)) h3
-        (zeroOrPositive_natStr _ hf) (by omega), parseTail_sufText dec ue _ _ r hr hb hs]
+        (zeroOrPositive_natStr _ hf) (by omega), parseTail_sufText dec ue _ _ r hr hb]
       have : (if '-' = '-' then -(((-r.offset).toNat : Nat) : Int) else (((-r.offset).toNat : Nat) : Int)) = r.offset := by
         rw [if_pos rfl]; omega
       rw [this]
